@@ -596,8 +596,10 @@ fn foldarb<W: Write>(r: &mut Rng, n: usize, o: &mut Out<W>) {
         let ff = efmt(f).unwrap();
         let mut pool = gen::keywords(ff);
         pool.push(String::new());
-        for _ in 0..n {
-            let v = gen::junk_lnarsese(r, &pool);
+        let vocab = gen::vocab(lfmt(f).unwrap(), ff.atom.prefix_placeholder);
+        for i in 0..n {
+            // two thirds nearly-valid (one junk field), one third junk everywhere
+            let v = if i % 3 == 2 { gen::junk_lnarsese(r, &pool) } else { gen::nearly_valid_lnarsese(r, &vocab, &pool) };
             let sv = ser::lnarsese(&v);
             let out = o.run("fold", f, &sv);
             o.checked("C05");
@@ -1121,7 +1123,10 @@ fn ctor<W: Write>(r: &mut Rng, n: usize, o: &mut Out<W>) {
         // the property, stated directly on f64
         o.checked("C13");
         let ok = |x: f64| x >= 0.0 && x <= 1.0;
-        let t = Truth::try_from_floats(xs.iter().copied());
+        let t = match catch_unwind(AssertUnwindSafe(|| Truth::try_from_floats(xs.iter().copied()))) {
+            Ok(t) => t,
+            Err(_) => { o.fail("C13", "-", "Truth::try_from_floats panicked (the fallible constructor must return Err)", &payload); continue; }
+        };
         let want_t = xs.iter().take(2).all(|x| ok(*x));
         if t.is_ok() != want_t {
             o.fail("C13", "-", "Truth::try_from_floats outcome != all consumed components in [0,1]", &payload);
@@ -1136,7 +1141,10 @@ fn ctor<W: Write>(r: &mut Rng, n: usize, o: &mut Out<W>) {
             if arity < 2 && catch_unwind(AssertUnwindSafe(|| t.c())).is_ok() { o.fail("C13", "-", "c() on a truth without confidence did not panic", &payload); }
             if arity < 1 && catch_unwind(AssertUnwindSafe(|| t.f())).is_ok() { o.fail("C13", "-", "f() on an empty truth did not panic", &payload); }
         }
-        let b = Budget::try_from_floats(xs.iter().copied());
+        let b = match catch_unwind(AssertUnwindSafe(|| Budget::try_from_floats(xs.iter().copied()))) {
+            Ok(b) => b,
+            Err(_) => { o.fail("C13", "-", "Budget::try_from_floats panicked (the fallible constructor must return Err)", &payload); continue; }
+        };
         let want_b = xs.iter().take(3).all(|x| ok(*x));
         if b.is_ok() != want_b {
             o.fail("C13", "-", "Budget::try_from_floats outcome != all consumed components in [0,1]", &payload);
@@ -1152,7 +1160,7 @@ fn ctor<W: Write>(r: &mut Rng, n: usize, o: &mut Out<W>) {
         // panicking constructors panic exactly when the fallible ones fail
         if xs.len() >= 1 {
             let p = catch_unwind(|| Truth::new_single(xs[0])).is_err();
-            if p != Truth::try_from_floats([xs[0]].into_iter()).is_err() { o.fail("C13", "-", "Truth::new_single panics != try_from_floats Err", &payload); }
+            if p != catch_unwind(|| Truth::try_from_floats([xs[0]].into_iter()).is_err()).unwrap_or(true) { o.fail("C13", "-", "Truth::new_single panics != try_from_floats Err", &payload); }
             let p = catch_unwind(|| Budget::new_single(xs[0])).is_err();
             if p != Budget::try_from_floats([xs[0]].into_iter()).is_err() { o.fail("C13", "-", "Budget::new_single panics != try_from_floats Err", &payload); }
         }
